@@ -191,6 +191,7 @@ type rec struct {
 	kind string
 	n    int
 	last *boc.Cell
+	puts int
 }
 
 func safely(f func() error) (err error) {
@@ -229,7 +230,13 @@ func (r *rec) put(k, v string) bool {
 		r.fail("Put", err, ev.M{"key": k})
 		return false
 	}
-	r.w.Emit(ev.M{"k": "Put", "key": k, "val": v, "items": items})
+	r.puts++
+	if len(items) <= 64 || r.puts%64 == 0 {
+		r.w.Emit(ev.M{"k": "Put", "key": k, "val": v, "size": len(items), "items": items})
+	} else {
+		// big maps: the full listing with every 64th Put only (the trace is quadratic otherwise); Enc / Dec list everything
+		r.w.Emit(ev.M{"k": "Put", "key": k, "val": v, "size": len(items)})
+	}
 	return true
 }
 func (r *rec) get(k string) bool {
